@@ -118,6 +118,14 @@ def body(data, hist):
     hist.apply({'op': 'pr_event', 'pr': A})
     if hist.violations:
         return
+    if data.draw(st.integers(0, 3), label='twice_in_a_row') == 0:
+        # the same command again, right after the robot's answer (double
+        # post): executed once more, then the next evaluation rebuilds
+        hist.apply({'op': 'comment', 'pr': A, 'user': AUTHOR, 'text': cmd})
+        hist.apply({'op': 'pr_event', 'pr': A})
+        hist.flags.add('c15_command_twice_in_a_row')
+        if hist.violations:
+            return
     hist.apply({'op': 'pr_event', 'pr': A})
     if data.draw(st.integers(0, 2), label='again') == 0 and \
             not hist.violations:
